@@ -849,6 +849,8 @@ SCENARIOS = {
     "failed-set-missing-parent": [["set", "k", 1], ["set", "n/m", BAD]],
     "failed-set-fresh": [["set", "a", BAD], ["mkgrp", "g"], ["set", "g/x", BAD], ["commit"], ["set", "g/y", BAD], ["setattr", "g", "k", BAD]],
     # user data that merely has the byte of the deletion marker
+    "one-byte-opaque-values": [["set", "a", {"__bytes__": "61"}], ["set", "g/z", {"__bytes__": "00"}], ["setattr", "/", "k", {"__bytes__": "ff"}], ["commit"], ["set", "b", {"__bytes__": "7e"}], ["del", "a"], ["set", "a", {"__bytes__": "80"}],
+                               ["commit"], ["copy", "g", "h"], ["set", "g/y", {"__bytes__": "61"}]],
     "marker-lookalike-values": [["set", "a", {"__np__": "uint8", "value": 127}], ["set", "b", {"__np__": "int8", "value": 127}], ["setattr", "/", "k", {"__np__": "uint8", "value": 127}], ["commit"],
                                 ["set", "g/c", {"__np__": "uint8", "value": 127}], ["del", "a"], ["commit"], ["set", "a", {"__np__": "uint8", "value": 127}]],
     # many patches (reopen by name must find every container, also beyond .p9)
